@@ -67,12 +67,20 @@ def selectProc (table : List (Text × Proc)) (ct : Text) : Proc :=
 /-- `RequestBody(...).processors` as shipped (compared with the generated table in `C03Tables`). -/
 def defaultProcessors : List (Text × Proc) :=
   [("application/x-www-form-urlencoded".toList, .urlencoded),
-   ("multipart/form-data".toList, .formData),
-   ("multipart".toList, .oldMultipart)]
+   ("multipart".toList, .oldMultipart),
+   ("multipart/form-data".toList, .formData)]
 
 /-- `RequestBody.__init__`: for `text/*` ISO-8859-1 is appended unless a Latin-1 spelling is there. -/
 def textFallback (ct : Text) (attempts : List Charset) : List Charset :=
   if "text/".toList.isPrefixOf ct ∧ Charset.latin1 ∉ attempts then attempts ++ [Charset.latin1] else attempts
+
+/-- `request.body.attempt_charsets` as the processors find it: `Entity.__init__` (declared charset first),
+    `RequestBody.__init__` (`text/*`), then the `request.body.attempt_charsets` config entry, which replaces
+    the list wholesale. -/
+def requestAttempts (ct : Text) (declared : Option Charset) (configured : Option (List Charset)) : List Charset :=
+  match configured with
+  | some l => l
+  | none => textFallback ct (attemptCharsets declared none)
 
 /-! ## multipart: from the parts to the parameter dict -/
 
